@@ -35,7 +35,8 @@ RULE = ('one PRNG; a case is a random mesh (ring / 2xk or 3xk grid / random conn
         'or swapped, complete explicit OMS chains (with ROADMs on/off the chain, reversed spans, chains revisiting a '
         'ROADM), all-STRICT / all-LOOSE / mixed hops, source/destination repeated in the list, bidirectional flag; '
         '~12 % malformed (unknown names, transceivers inside the list, unknown source/destination) that must raise '
-        'ServiceError or be dropped.  Non-trivial = some request has a non-empty include list and at least two '
+        'ServiceError or be dropped; ~8 % lists with 2-3 unknown LOOSE names at any position (first / between / last) '
+        'mixed with valid STRICT/LOOSE hops, meetable or not.  Non-trivial = some request has a non-empty include list and at least two '
         'simple paths between its end points, or is blocked; ispart cases are always non-trivial.  Include lists '
         'never repeat a node (the code accepts [X, X], a subsequence reading does not: the property is silent).')
 MODEL_SCOPE = ('modelled: correct_json_route_list, compute_constrained_path decision logic, explicit_path (repaired: '
@@ -99,13 +100,15 @@ def _fill(rng, item):
     return list(item)
 
 
-def gen_request(rng, mesh, rid, allow_bidir=True, malformed_ok=True):
+def gen_request(rng, mesh, rid, allow_bidir=True, malformed_ok=True, widen=False):
     n = mesh['n']
     s, t = rng.sample(range(n), 2) if n >= 2 else (0, 0)
     style = rng.choice(['none', 'none', 'roadms', 'lines', 'along', 'along', 'swapped', 'explicit', 'explicit',
-                        'revisit', 'malformed'])
+                        'revisit', 'malformed', 'unknowns'])
     if style == 'malformed' and not malformed_ok:
         style = 'along'
+    if widen and rng.random() < 0.5:
+        style = 'unknowns'
     inc = []
     src, dst = ['T', s], ['T', t]
     links = [lk for lk in mesh['links']]
@@ -154,6 +157,26 @@ def gen_request(rng, mesh, rid, allow_bidir=True, malformed_ok=True):
             t = c if rng.random() < 0.7 else rng.choice([x for x in range(n) if x != a])
             src, dst = ['T', s], ['T', t]
             inc = [['L', a, b, None], ['L', b, a, None], ['L', a, c, None]]
+    elif style == 'unknowns':
+        # 2-3 names that are not in the topology, to be dropped as LOOSE hops, at any position (first, between, last)
+        # of a list of valid hops whose hop types must stay attached to their nodes after the clean-up
+        r = rng.random()
+        if paths and r < 0.55:
+            items = _path_items(rng.choice(paths))
+            pos = sorted(rng.sample(range(len(items)), min(rng.choice([1, 2, 2, 3]), len(items))))
+            inc = [items[i] for i in pos]
+            if rng.random() < 0.3 and len(inc) >= 2:
+                inc.reverse()                             # cannot be met in this order
+        elif r < 0.9:
+            inc = [['R', x] for x in rng.sample(range(n), min(rng.choice([1, 2]), n))]    # often off every route
+        else:
+            inc = []
+        names = rng.sample(['roadm N99', 'nowhere', 'fiber (N0 -> N0)-7', 'Edfa_unknown', 'roadm n1', 'site X'],
+                           rng.choice([2, 2, 3]))
+        for k, nm in enumerate(names):
+            where = rng.choice(['first', 'any', 'any', 'last'])
+            at = 0 if where == 'first' else len(inc) if where == 'last' else rng.randrange(len(inc) + 1)
+            inc.insert(at, ['U', nm])
     elif style == 'malformed':
         kind = rng.choice(['unknown', 'unknown', 'trx-inside', 'bad-source', 'bad-destination'])
         base = [['R', rng.randrange(n)]] if rng.random() < 0.5 else []
@@ -180,6 +203,14 @@ def gen_request(rng, mesh, rid, allow_bidir=True, malformed_ok=True):
     if rng.random() < 0.08:
         inc = inc + [dst]
     hops = _hops(rng, len(inc))
+    if style == 'unknowns':
+        # valid hops: STRICT / LOOSE / mixed (STRICT-biased: an unmeetable STRICT hop must still block after the
+        # unknown names are gone); unknown names LOOSE, now and then one of them STRICT (=> ServiceError)
+        valid = rng.choice([[S] * len(inc), [S] * len(inc), [L] * len(inc), [rng.choice([S, L]) for _ in inc]])
+        hops = [(L if it[0] == 'U' else valid[j]) for j, it in enumerate(inc)]
+        if malformed_ok and rng.random() < 0.12:
+            us = [j for j, it in enumerate(inc) if it[0] == 'U']
+            hops[rng.choice(us)] = S
     return {'id': rid, 'src': src, 'dst': dst, 'inc': [[it, h] for it, h in zip(inc, hops)],
             'bidir': bool(allow_bidir and rng.random() < 0.3), 'style': style}
 
@@ -227,13 +258,13 @@ def gen(rng, tier, widen=False):
         for s in range(mesh['n']):
             for t in range(mesh['n']):
                 if s != t:
-                    r = gen_request(rng, mesh, len(reqs), allow_bidir=not oneway)
+                    r = gen_request(rng, mesh, len(reqs), allow_bidir=not oneway, widen=widen)
                     if r['style'] != 'revisit' and r['src'][0] == 'T' and r['dst'][0] == 'T':
                         r['src'], r['dst'] = ['T', s], ['T', t]
                     reqs.append(r)
     else:
         k = rng.randint(1, 3) if via == 'planning' else rng.randint(3, 8)
-        reqs = [gen_request(rng, mesh, i, allow_bidir=not oneway, malformed_ok=(via != 'planning'))
+        reqs = [gen_request(rng, mesh, i, allow_bidir=not oneway, malformed_ok=(via != 'planning'), widen=widen)
                 for i in range(k)]
     if via == 'planning' and any(r['src'] == r['dst'] for r in reqs):
         via = 'dsjctn'       # source = destination is a degenerate request: propagation over [trx] raises IndexError
@@ -326,6 +357,8 @@ def impl_clean(net, rr):
         kind = ('source' if 'transponder source' in msg else 'destination' if 'transponder destination' in msg
                 else 'strict-unknown' if 'Strict constraint' in msg else 'other:' + msg[:40])
         return ('error', kind), None
+    except Exception as e:          # anything else is not a documented rejection: reported, never swallowed
+        return ('error', 'raised:' + err_kind(e)), None
     return ('ok', [[u, h] for u, h in zip(rq.nodes_list, rq.loose_list)]), rq
 
 
